@@ -479,7 +479,9 @@ class MessageAccumulator:
                 continue
             leader = self._cluster.leader_for_partition(tp)
             if leader is None or leader == -1:
-                if self._batches[tp][0].expired():
+                # Same rule as ``Sender._can_retry``: with idempotence batches are
+                # never expired, as failing one would leave a sequence gap.
+                if self._txn_manager is None and self._batches[tp][0].expired():
                     # batch is for partition is expired and still no leader,
                     # so set exception for batch and pop it
                     batch = self._pop_batch(tp)
